@@ -313,26 +313,54 @@ func (r *Reader) parseWorksheet(data []byte, name string, index int) (*Sheet, er
 	maxRow := 0
 	maxCol := 0
 
+	// The position of a cell is what its reference says. Both r attributes are
+	// optional (ECMA-376 18.3.1.4, 18.3.1.73): a cell without one follows the
+	// cell before it in its row, a row without one follows the row before it.
+	// A reference that does not parse is skipped.
+	forEachCell := func(fn func(cellXML *cellXML, col, rowIdx int)) {
+		prevRow := -1
+		for i := range ws.SheetData.Rows {
+			row := &ws.SheetData.Rows[i]
+			rowIdx := prevRow + 1
+			if row.R > 0 {
+				rowIdx = row.R - 1
+			}
+			prevRow = rowIdx
+			nextCol := 0
+			for j := range row.Cells {
+				cell := &row.Cells[j]
+				col, cellRow := nextCol, rowIdx
+				if cell.R != "" {
+					var err error
+					col, cellRow, err = ParseCellRef(cell.R)
+					if err != nil {
+						continue
+					}
+					if row.R <= 0 {
+						// The cell reference is what addresses the cell
+						rowIdx, prevRow = cellRow, cellRow
+					}
+				}
+				nextCol = col + 1
+				fn(cell, col, cellRow)
+			}
+		}
+	}
+
 	// First pass: find dimensions
 	for _, row := range ws.SheetData.Rows {
 		if row.R > maxRow {
 			maxRow = row.R
 		}
-		for _, cell := range row.Cells {
-			col, cellRow, err := ParseCellRef(cell.R)
-			if err != nil {
-				continue
-			}
-			if col > maxCol {
-				maxCol = col
-			}
-			// The r attribute of <row> is optional; the cell reference is
-			// what addresses the cell.
-			if cellRow+1 > maxRow {
-				maxRow = cellRow + 1
-			}
-		}
 	}
+	forEachCell(func(_ *cellXML, col, cellRow int) {
+		if col > maxCol {
+			maxCol = col
+		}
+		if cellRow+1 > maxRow {
+			maxRow = cellRow + 1
+		}
+	})
 
 	// The grid below is dense: its size comes from the highest row and column
 	// the file names, not from the number of cells it holds. Refuse dimensions
@@ -361,63 +389,57 @@ func (r *Reader) parseWorksheet(data []byte, name string, index int) (*Sheet, er
 	}
 
 	// Second pass: populate cells
-	for _, row := range ws.SheetData.Rows {
-		for _, cellXML := range row.Cells {
-			// Place the cell where its own reference says, not where the
-			// enclosing <row> claims to be (its r attribute may be absent).
-			col, rowIdx, err := ParseCellRef(cellXML.R)
-			if err != nil {
-				continue
-			}
-			if rowIdx < 0 || rowIdx >= len(sheet.Rows) {
-				continue
-			}
-			if col < 0 || col >= len(sheet.Rows[rowIdx]) {
-				continue
-			}
+	forEachCell(func(cellXML *cellXML, col, rowIdx int) {
+		// Place the cell where its own reference says, not where the
+		// enclosing <row> claims to be (its r attribute may be absent).
+		if rowIdx < 0 || rowIdx >= len(sheet.Rows) {
+			return
+		}
+		if col < 0 || col >= len(sheet.Rows[rowIdx]) {
+			return
+		}
 
-			cell := &sheet.Rows[rowIdx][col]
-			cell.RawValue = cellXML.V
-			cell.StyleIndex = cellXML.S
-			cell.Formula = cellXML.F
+		cell := &sheet.Rows[rowIdx][col]
+		cell.RawValue = cellXML.V
+		cell.StyleIndex = cellXML.S
+		cell.Formula = cellXML.F
 
-			// Determine cell type and value
-			switch cellXML.T {
-			case "s": // Shared string
-				cell.Type = CellTypeString
-				idx, err := strconv.Atoi(cellXML.V)
-				if err == nil && idx >= 0 && idx < len(r.sharedStrings) {
-					cell.Value = r.sharedStrings[idx]
-				}
-			case "b": // Boolean
-				cell.Type = CellTypeBoolean
-				if cellXML.V == "1" {
-					cell.Value = "TRUE"
-				} else {
-					cell.Value = "FALSE"
-				}
-			case "e": // Error
-				cell.Type = CellTypeError
-				cell.Value = cellXML.V
-			case "str": // Inline string formula result
-				cell.Type = CellTypeString
-				cell.Value = cellXML.V
-			case "inlineStr": // Inline string
-				cell.Type = CellTypeString
-				if cellXML.Is != nil {
-					cell.Value = cellXML.Is.T
-				}
-			default: // Number or empty
-				if cellXML.V != "" {
-					cell.Type = CellTypeNumber
-					cell.Value = r.formatNumber(cellXML.V, cellXML.S)
-				} else if cellXML.F != "" {
-					cell.Type = CellTypeFormula
-					cell.Value = "" // Formula without cached value
-				}
+		// Determine cell type and value
+		switch cellXML.T {
+		case "s": // Shared string
+			cell.Type = CellTypeString
+			idx, err := strconv.Atoi(cellXML.V)
+			if err == nil && idx >= 0 && idx < len(r.sharedStrings) {
+				cell.Value = r.sharedStrings[idx]
+			}
+		case "b": // Boolean
+			cell.Type = CellTypeBoolean
+			if cellXML.V == "1" {
+				cell.Value = "TRUE"
+			} else {
+				cell.Value = "FALSE"
+			}
+		case "e": // Error
+			cell.Type = CellTypeError
+			cell.Value = cellXML.V
+		case "str": // Inline string formula result
+			cell.Type = CellTypeString
+			cell.Value = cellXML.V
+		case "inlineStr": // Inline string
+			cell.Type = CellTypeString
+			if cellXML.Is != nil {
+				cell.Value = cellXML.Is.T
+			}
+		default: // Number or empty
+			if cellXML.V != "" {
+				cell.Type = CellTypeNumber
+				cell.Value = r.formatNumber(cellXML.V, cellXML.S)
+			} else if cellXML.F != "" {
+				cell.Type = CellTypeFormula
+				cell.Value = "" // Formula without cached value
 			}
 		}
-	}
+	})
 
 	// Apply merged region info to cells
 	for _, mr := range sheet.MergedRegions {
